@@ -169,10 +169,11 @@ def run_group(g, tier, seed, use_cache=True):
             s = harness(['tree2', '--lts', l2, '--cfg1', r['cfg1'], '--cfg2', r['cfg2'], '--names', r['names'], '--b', r['b'], '--frac', r['frac'],
                          '--seed', seed * 1000 + i, '--out', out])
         elif r['kind'] == 'conc':
-            mc = run_mc('MC_Conc', 'MC_Conc', workers=16)
+            mname = 'MC_Conc' if r['prop'] == 'C16' else 'MC_Conc17'
+            mc = run_mc(mname, mname, workers=16)
             if not mc['ok']:
-                raise ToolError('model checking of MC_Conc failed:\n%s' % mc.get('tail', ''))
-            mcs['MC_Conc'] = mc
+                raise ToolError('model checking of %s failed:\n%s' % (mname, mc.get('tail', '')))
+            mcs[mname] = mc
             s = harness(['conc', '--prop', r['prop'], '--tier', tier, '--seed', seed, '--out', out, '--threads', 12], timeout=7200)
         elif r['kind'] == 'join':
             mc = run_mc(r['inst'], r['inst'])
